@@ -109,11 +109,47 @@ func genSpecCases(prop, tier, out string, sum *Summary, g *Gen, depth int) {
 			sum.Samples = append(sum.Samples, sum.Index[sid])
 		}
 	}
+	// small-scope enumeration: every combination of two constructs, on documents of every shape
+	cfg := ssCfg{lets: true, errs: true, bools: true}
+	per, d3 := 2, 1500
+	if prop == "C19" {
+		cfg = ssCfg{lets: true, errs: true, funcs: true}
+		per, d3 = 1, 800
+	}
+	if tier == "thorough" {
+		per, d3 = len(ssDocs), 20000
+	}
+	id := n + len(fixedE)
+	for _, sc := range smallScope(cfg, per, d3) {
+		if prop == "C19" && !usesLet(sc.e) {
+			continue
+		}
+		id++
+		e, doc := sc.e, sc.doc
+		text := unparse(e)
+		if hasEnum(e) && orderSensitive(e) {
+			if buildsObjects(e) {
+				continue
+			}
+			doc = bestNarrow(text, doc)
+		}
+		o := search(text, doc)
+		unordered := "false"
+		if hasEnum(e) {
+			unordered = "true"
+		}
+		sum.count("small-scope/" + o.Kind)
+		if o.Kind == "val" && o.Value != nil {
+			distinct[text+"|"+toJSON(o.Value)] = true
+		}
+		sh.Add(fmt.Sprintf("SC %d %s %s %s %s %s", id, coqR(e), hx(text), coqValue(doc), unordered, coqObs(o)))
+		sum.Index[strconv.Itoa(id)] = map[string]any{"expr": text, "doc": toJSON(doc), "observed": obsJSON(o)}
+	}
 	sh.Flush()
 	sum.Cases = sh.total
 	sum.Shards = sh.files
 	sum.Distinct = len(distinct)
-	sum.Rule = "random reference expressions (depth <= " + strconv.Itoa(depth) + ") from the grammar-directed generator, rendered with minimal parentheses, on random documents over keys a,b,c,k with every JSON type at every position; distinct/non-trivial = distinct (expression text, non-null result)"
+	sum.Rule = "small-scope enumeration (every expression of depth <= 2 over 11 leaves and every construct, a strided sample of depth 3, on 14 fixed documents of every shape) + random reference expressions (depth <= " + strconv.Itoa(depth) + ") from the grammar-directed generator, rendered with minimal parentheses, on random documents over keys a,b,c,k with every JSON type at every position; distinct/non-trivial = distinct (expression text, non-null result)"
 }
 
 func kindName(e *R) string {
@@ -319,4 +355,32 @@ func bestNarrow(text string, doc any) any {
 		}
 	}
 	return bestDoc
+}
+
+func usesLet(e *R) bool {
+	if e == nil {
+		return false
+	}
+	if e.K == KLet || e.K == KVar {
+		return true
+	}
+	if usesLet(e.L) || usesLet(e.Rt) || usesLet(e.Cond) {
+		return true
+	}
+	for _, x := range e.Es {
+		if usesLet(x) {
+			return true
+		}
+	}
+	for _, kv := range e.KEs {
+		if usesLet(kv.E) {
+			return true
+		}
+	}
+	for _, a := range e.Args {
+		if usesLet(a.E) {
+			return true
+		}
+	}
+	return false
 }
